@@ -10,7 +10,9 @@ RULE = ('TLC checks on MC_Data/MC_C16 that in every reachable state of the consu
         'atomicity; every transition of the bounded instance (two consumers, reads with COUNT/NOACK, history reads, XACK, '
         'XCLAIM, XDEL, group/consumer administration) is replayed on the real server; seeded random multi-group histories '
         'are validated with a complete read-back of every group (XPENDING summary, all rows, rows per consumer) every 12 '
-        'commands, so that any divergence between the pending indexes and counters becomes visible.')
+        'commands, so that any divergence between the pending indexes and counters becomes visible; hand-over stories (one stream, one group, three consumers: '
+        'small deliveries, claims of older and newer entries in both directions, acknowledgement of the lowest / highest / a middle id, consumers deleted while '
+        'they hold a bound of the pending set, entries deleted under pending ids) are audited after EVERY command.')
 ASSUMPTIONS = ['idle times are not compared (any non-negative integer); XCLAIM is generated with min-idle-time 0 only',
                'the pending-entry structures are observed through XPENDING (no in-process checker hook: /repo is not '
                'modified for this property)',
@@ -35,7 +37,13 @@ def run(ctx):
     for i in range(n_hist):
         gens_streams.stream_history(ctx, srv, gens_streams.GroupGen(ctx.rnd), n=300 if ctx.quick else 1500,
                                     label='grand%d' % i, groups=True)
-    ctx.extra_cov['distinct_cases'] = len(paths) + n_hist
+    # hand-over stories on one group, audited after every command
+    n_story = 10 if ctx.quick else 100
+    for i in range(n_story):
+        gens_streams.stream_history(ctx, srv, gens_streams.GroupStoryGen(ctx.rnd), n=120 if ctx.quick else 300,
+                                    label='story%d' % i, every=1, groups=True)
+    ctx.extra_cov['handover_stories'] = n_story
+    ctx.extra_cov['distinct_cases'] = len(paths) + n_hist + n_story
 
 
 def replay(ctx, path):
